@@ -25,7 +25,7 @@ def gen_case(rng, tier):
             c['ops'] = [op for op in c['ops'] if not (op[0] == 'nest' and _uses_app(op[1], c['app']))]
             c['write_at'] = min(c.get('write_at', 0), len(c['ops']))
         calls.append(c)
-    gran = 'opcode' if (tier == 'thorough' and rng.random() < 0.2) else 'line'
+    gran = 'line'      # opcode granularity disabled: CPython 3.12.1 segfaults under f_trace_opcodes (DESIGN.md 10)
     est = 500 * n_thr * (6 if gran == 'opcode' else 1)
     return {'threads': calls, 'n_apps': n_apps, 'default_at': rng.choice([None, None, 0, 1]),
             'construct_order': rng.choice(['fwd', 'rev']), 'plan': gen_plan(rng, est, n_thr), 'gran': gran}
@@ -51,7 +51,7 @@ def run_case(case):
     s = Sched(n, case['plan'], prefixes=PREFIXES, granularity=case.get('gran', 'line'))
 
     def on_switch(frm, to):
-        if len(inflight) >= 2:
+        if frm in inflight:      # pre-empted in the middle of its request
             overlap[0] += 1
     s.on_switch = on_switch
     results = [None] * n
